@@ -405,12 +405,58 @@ func (c *Ctx) mustPass(fn *ssa.Function, sinks []ssa.Instruction, match func(fac
 	for _, s := range sinks {
 		b := s.Block()
 		if reach[b] {
+			if mustPassDepth < 2 && c.delegatedReturnPasses(fn, s, match) {
+				out = append(out, SinkVerdict{s, true, ""})
+				continue
+			}
 			out = append(out, SinkVerdict{s, false, c.witness(fn, parent, b)})
 		} else {
 			out = append(out, SinkVerdict{s, true, ""})
 		}
 	}
 	return out
+}
+
+var mustPassDepth int
+
+// delegatedReturnPasses: the sink is `return h(...)` — the verdict of a same-package helper handed back unchanged — and
+// every success return of h lies behind an accepted fact (h's facts are read with its parameters replaced by the
+// call's arguments).
+func (c *Ctx) delegatedReturnPasses(fn *ssa.Function, s ssa.Instruction, match func(string) bool) bool {
+	r, ok := s.(*ssa.Return)
+	if !ok {
+		return false
+	}
+	ei := errorResultIndex(fn)
+	if ei < 0 || ei >= len(r.Results) {
+		return false
+	}
+	var call *ssa.Call
+	switch x := returnedValue(r, ei).(type) {
+	case *ssa.Call:
+		call = x
+	case *ssa.Extract:
+		call, _ = x.Tuple.(*ssa.Call)
+	}
+	if call == nil {
+		return false
+	}
+	h := samePkgHelper(fn, &call.Call)
+	if h == nil || errorResultIndex(h) < 0 {
+		return false
+	}
+	hs := successReturns(h)
+	if len(hs) == 0 {
+		return true
+	}
+	mustPassDepth++
+	defer func() { mustPassDepth-- }()
+	for _, v := range c.mustPass(h, hs, func(f string) bool { return match(f) || match(substParams(f, call.Call.Args)) }) {
+		if !v.OK {
+			return false
+		}
+	}
+	return true
 }
 
 // passEdges: the If edges of fn on which a fact accepted by match is known to hold — either because the edge's own
@@ -424,6 +470,69 @@ func passEdges(fn *ssa.Function, match func(fact string) bool, depth int) map[*s
 			v := cutSet[f.From]
 			v[f.Succ] = true
 			cutSet[f.From] = v
+		}
+	}
+	// a branch on a materialised short-circuit value (ok := A && B; if !ok {…}): the outcome edge carries a fact
+	// when every way the phi can take that outcome implies one
+	for _, b := range fn.Blocks {
+		if len(b.Instrs) == 0 {
+			continue
+		}
+		iff, ok := b.Instrs[len(b.Instrs)-1].(*ssa.If)
+		if !ok {
+			continue
+		}
+		cond, neg := iff.Cond, false
+		for {
+			u, isU := cond.(*ssa.UnOp)
+			if !isU || u.Op != token.NOT {
+				break
+			}
+			cond, neg = u.X, !neg
+		}
+		phi, isPhi := cond.(*ssa.Phi)
+		if !isPhi || phi.Block() != b || !isBoolPhi(phi) {
+			continue
+		}
+		for _, outcome := range []bool{true, false} {
+			all, any := true, false
+			for i, e := range phi.Edges {
+				pred := b.Preds[i]
+				if k, isK := e.(*ssa.Const); isK && k.Value != nil {
+					if (desc(k) == "true") != outcome {
+						continue
+					}
+					any = true
+					if !edgeImpliesMatch(pred, b, match) {
+						all = false
+					}
+					continue
+				}
+				any = true
+				tf, ff := condFacts(e)
+				facts := tf
+				if !outcome {
+					facts = ff
+				}
+				hit := false
+				for _, f := range facts {
+					if match(f) {
+						hit = true
+					}
+				}
+				if !hit && !edgeImpliesMatch(pred, b, match) {
+					all = false
+				}
+			}
+			if any && all {
+				succ := 0
+				if outcome == neg {
+					succ = 1
+				}
+				v := cutSet[b]
+				v[succ] = true
+				cutSet[b] = v
+			}
 		}
 	}
 	if depth <= 0 {
@@ -941,4 +1050,38 @@ func factsForValue(fn *ssa.Function, v ssa.Value) (okFact, badFact string) {
 		return ff[0], tf[0]
 	}
 	return "", ""
+}
+
+// edgeImpliesMatch: the CFG edge pred->succ is only taken when some fact accepted by match holds: pred (or the chain of
+// single-predecessor blocks above it) ends in an If whose corresponding edge carries such a fact.
+func edgeImpliesMatch(pred, succ *ssa.BasicBlock, match func(string) bool) bool {
+	check := func(ifb, via *ssa.BasicBlock) bool {
+		iff, ok := ifb.Instrs[len(ifb.Instrs)-1].(*ssa.If)
+		if !ok {
+			return false
+		}
+		tf, ff := condFacts(iff.Cond)
+		for i, fs := range [][]string{tf, ff} {
+			if ifb.Succs[i] != via || ifb.Succs[1-i] == via {
+				continue
+			}
+			for _, f := range fs {
+				if match(f) {
+					return true
+				}
+			}
+		}
+		return false
+	}
+	if check(pred, succ) {
+		return true
+	}
+	b := pred
+	for i := 0; i < 4 && len(b.Preds) == 1; i++ {
+		if check(b.Preds[0], b) {
+			return true
+		}
+		b = b.Preds[0]
+	}
+	return false
 }
